@@ -117,3 +117,19 @@ package statsd
 //@   requires wfdCounters(a.metricMap.Counters) && wfdGauges(a.metricMap.Gauges) && wfdTimers(a.metricMap.Timers) && wfdSets(a.metricMap.Sets)
 //@   ensures  wfdCounters(a.metricMap.Counters) && wfdGauges(a.metricMap.Gauges) && wfdTimers(a.metricMap.Timers) && wfdSets(a.metricMap.Sets)
 //@   modifies everything
+
+// ---- dispatch to shards (C06) ---------------------------------------------------------------------------
+// routedTo(m, i, n): every series of m belongs to bucket i of n
+//@ pred routedTo(m *gostatsd.MetricMap, i int, n int) := (forall name string, t string :: name in m.Counters && t in m.Counters[name] ==> bucketSpec(name, t, n) == i) && (forall name string, t string :: name in m.Gauges && t in m.Gauges[name] ==> bucketSpec(name, t, n) == i) && (forall name string, t string :: name in m.Timers && t in m.Timers[name] ==> bucketSpec(name, t, n) == i) && (forall name string, t string :: name in m.Sets && t in m.Sets[name] ==> bucketSpec(name, t, n) == i)
+
+// DispatchMetricMap splits by the number of workers and queues split i to worker i, nothing else:
+// whatever is sent to worker i's queue holds only series of bucket i.
+//@ func (*BackendHandler).DispatchMetricMap
+//@   requires bh != nil && mm != nil && 1 <= bh.numWorkers && bh.numWorkers <= 4294967295 && len(bh.workers) == bh.numWorkers
+//@   requires forall i int :: 0 <= i && i < len(bh.workers) ==> bh.workers[i] != nil
+//@   requires wfdCounters(mm.Counters) && wfdGauges(mm.Gauges) && wfdTimers(mm.Timers) && wfdSets(mm.Sets)
+//@   callsite Split requires count == bh.numWorkers
+//@   sendsite requires ch == bh.workers[aggrIdx].metricMapQueue && val == maps[aggrIdx] && routedTo(val, aggrIdx, bh.numWorkers)
+//@   loop 1 invariant len(maps) == bh.numWorkers && len(bh.workers) == bh.numWorkers && (forall i int :: 0 <= i && i < len(maps) ==> maps[i] != nil) && (forall i int :: 0 <= i && i < len(bh.workers) ==> bh.workers[i] != nil)
+//@   loop 1 invariant routedOnlyC(maps, bh.numWorkers) && routedOnlyG(maps, bh.numWorkers) && routedOnlyT(maps, bh.numWorkers) && routedOnlyS(maps, bh.numWorkers)
+//@   modifies sent
